@@ -6,13 +6,19 @@ _DRIVE_SPEC = """    ensures
            &&& r is Ok ==> b.len() >= 8 && scan_rest(b.skip(8)) == Some(final(self).reader.rest())
                  && (r->Ok_0).version.0 == be16(b) && (r->Ok_0).operation_or_status == be16(b.skip(2))
                  && (r->Ok_0).request_id == be32(b.skip(4))
+           &&& (b.len() >= 8 && old(self).state.abs() == m_init() && m_run(b.skip(8), m_init()) is Some) ==>
+                 r is Ok && (final(self).state.abs(), final(self).reader.rest()) == m_run(b.skip(8), m_init()).unwrap()
         }),"""
 
 _DRIVE_LOOP = """
         invariant_except_break
             scan_rest(self.reader.rest()) == scan_rest(b0.skip(8)),
+            b0 == old(self).reader.rest(),
+            wf0 <==> (b0.len() >= 8 && old(self).state.abs() == m_init() && m_run(b0.skip(8), m_init()) is Some),
+            wf0 ==> m_run(self.reader.rest(), self.state.abs()) == m_run(b0.skip(8), m_init()),
         ensures
             Some(self.reader.rest()) == scan_rest(b0.skip(8)),
+            wf0 ==> Some((self.state.abs(), self.reader.rest())) == m_run(b0.skip(8), m_init()),
         decreases self.reader.rest().len(),
 """
 
@@ -21,25 +27,45 @@ _PV_SPEC = """    ensures
            &&& r is Ok ==> b.len() >= 2 && b.len() >= 2 + be16(b) as int + 2
                  && b.len() >= 2 + be16(b) as int + 2 + be16(b.skip(2).skip(be16(b) as int)) as int
                  && final(self).reader.rest() == b.skip(2).skip(be16(b) as int).skip(2).skip(be16(b.skip(2).skip(be16(b) as int)) as int)
+           &&& (b.len() >= 2 && b.len() >= 2 + be16(b) as int + 2
+                 && b.len() >= 2 + be16(b) as int + 2 + be16(b.skip(2).skip(be16(b) as int)) as int
+                 && m_value_legal(old(self).state.abs(), tag, str_of(lossy(b.skip(2).take(be16(b) as int))),
+                                  b.skip(2).skip(be16(b) as int).skip(2).take(be16(b.skip(2).skip(be16(b) as int)) as int)))
+               ==> r is Ok && final(self).state.abs() == m_value(old(self).state.abs(), tag, str_of(lossy(b.skip(2).take(be16(b) as int))),
+                                  b.skip(2).skip(be16(b) as int).skip(2).take(be16(b.skip(2).skip(be16(b) as int)) as int))
+           &&& !(r is Ok) ==> true
         }),"""
 
 
 def _front(ty):
     return [
-        {'op': 'fn', 'path': f'{ty}::new', 'ret': 'r', 'attrs': ['#[verifier::external_body]']},
+        # generic `T: Into<Reader>` is outside Verus: the constructor's body (reader.into(), ParserState::new()) is trusted
+        {'op': 'fn', 'path': f'{ty}::new', 'ret': 'r', 'attrs': ['#[verifier::external_body]'],
+         'spec': '    ensures r.fresh(),'},
         {'op': 'fn', 'path': f'{ty}::parse_value', 'ret': 'r', 'spec': _PV_SPEC},
         {'op': 'fn', 'path': f'{ty}::parse_header_attributes', 'ret': 'r', 'spec': _DRIVE_SPEC,
          'loops': {0: _DRIVE_LOOP},
          'proofs': [{'at_start': True,
-                     'text': 'let ghost b0 = old(self).reader.rest();'}]},
+                     'text': 'let ghost b0 = old(self).reader.rest(); let ghost wf0 = b0.len() >= 8 && old(self).state.abs() == m_init() && m_run(b0.skip(8), m_init()) is Some;'}]},
         {'op': 'fn', 'path': f'{ty}::parse_parts', 'ret': 'r', 'w9_mut_self': True,
          'spec': """    ensures
         ({ let b = self.rest();
            &&& r is Ok ==> b.len() >= 8 && scan_rest(b.skip(8)) == Some((r->Ok_0).2.rest())
                  && (r->Ok_0).0.version.0 == be16(b) && (r->Ok_0).0.operation_or_status == be16(b.skip(2))
                  && (r->Ok_0).0.request_id == be32(b.skip(4))
+           &&& (self.fresh() && m_message(b) is Some) ==> r is Ok
+                 && (r->Ok_0).1.sgroups().map_values(|g: IppAttributeGroup| abs_mgroup(g)) == m_message(b).unwrap().0
+                 && (r->Ok_0).2.rest() == m_message(b).unwrap().1
         }),"""},
-        {'op': 'fn', 'path': f'{ty}::parse', 'ret': 'r', 'w9_mut_self': True},
+        {'op': 'fn', 'path': f'{ty}::parse', 'ret': 'r', 'w9_mut_self': True,
+         'spec': """    ensures
+        ({ let b = self.rest();
+           &&& r is Ok ==> b.len() >= 8 && scan_rest(b.skip(8)) is Some
+                 && (r->Ok_0).shdr().version.0 == be16(b) && (r->Ok_0).shdr().operation_or_status == be16(b.skip(2))
+                 && (r->Ok_0).shdr().request_id == be32(b.skip(4))
+           &&& (self.fresh() && m_message(b) is Some) ==> r is Ok
+                 && (r->Ok_0).sattrs().sgroups().map_values(|g: IppAttributeGroup| abs_mgroup(g)) == m_message(b).unwrap().0
+        }),"""},
     ]
 
 
@@ -50,17 +76,21 @@ OPS = [
                               '#[allow(unused_imports)] use crate::verif_tables::*;\n'
                               '#[allow(unused_imports)] use crate::verif_machine::*;\n'
                               '#[allow(unused_imports)] use vstd::future::FutureAdditionalSpecFns;\n#[allow(unused_imports)] use vstd::std_specs::iter::IteratorSpec;\n'
-                              'verus! { broadcast use {crate::verif_ext::group_ipp_seq, crate::verif_ext::axiom_string_key_model, vstd::std_specs::hash::group_hash_axioms, crate::verif_machine::group_ipp_machine, vstd::std_specs::btree::group_btree_axioms}; }'},
+                              'verus! { broadcast use {crate::verif_ext::group_ipp_seq, crate::verif_ext::axiom_string_key_model, vstd::std_specs::hash::group_hash_axioms, crate::verif_machine::group_ipp_machine, vstd::std_specs::btree::group_btree_axioms, crate::request::lemma_req_view}; }'},
     {'op': 'wrap', 'items': ['enum IppParseError', 'fn list_or_value', 'struct ParserState', 'impl ParserState',
                              'struct IppParser', 'impl IppParser', 'struct AsyncIppParser', 'impl AsyncIppParser']},
     {'op': 'append', 'text': '''verus! {
 impl<R> IppParser<R> {
     /// bytes the underlying stream will still deliver (ghost)
     pub closed spec fn rest(&self) -> Seq<u8> { self.reader.rest() }
+    /// nothing parsed yet
+    pub closed spec fn fresh(&self) -> bool { self.state.abs() == m_init() }
 }
 impl<R> AsyncIppParser<R> {
     /// bytes the underlying stream will still deliver (ghost)
     pub closed spec fn rest(&self) -> Seq<u8> { self.reader.rest() }
+    /// nothing parsed yet
+    pub closed spec fn fresh(&self) -> bool { self.state.abs() == m_init() }
 }
 
 /// abstraction of a group held by the parser: delimiter and name -> abstract value
@@ -86,6 +116,7 @@ impl ParserState {
     {'op': 'fn', 'path': 'ParserState::new', 'ret': 'r',
      'spec': '    ensures ({ let a = r.abs(); let b = m_init(); a.groups =~= b.groups && a.cur =~~= b.cur && a.name == b.name && a.stack =~~= b.stack }),'},
     {'op': 'fn', 'path': 'ParserState::add_last_attribute',
+     'proofs': [{'at_start': True, 'text': 'proof { reveal(m_flush); }'}],
      'spec': '''    ensures
         old(self).abs().stack.len() >= 1 ==> ({ let a = final(self).abs(); let b = m_flush(old(self).abs()); a.groups =~= b.groups && a.cur =~~= b.cur && a.name == b.name && a.stack =~~= b.stack }),'''},
     {'op': 'fn', 'path': 'ParserState::parse_delimiter', 'ret': 'r',
@@ -93,7 +124,8 @@ impl ParserState {
         r is Ok <==> delimiter_tag_of(tag as int) is Some,
         r is Ok ==> Some(r->Ok_0) == delimiter_tag_of(tag as int),
         r is Ok && m_delim_legal(old(self).abs()) ==> ({ let a = final(self).abs(); let b = m_delim(old(self).abs(), r->Ok_0); a.groups =~= b.groups && a.cur =~~= b.cur && a.name == b.name && a.stack =~~= b.stack }),""",
-     'proofs': [{'before': 'let tag = DelimiterTag::from_u8', 'optional': True,
+     'proofs': [{'at_start': True, 'text': 'proof { reveal(m_flush); reveal(m_delim); }'},
+                {'before': 'let tag = DelimiterTag::from_u8', 'optional': True,
                  'text': 'proof { axiom_delimiter_tag_from(tag as int); }'}]},
     {'op': 'fn', 'path': 'ParserState::parse_value', 'ret': 'r',
      'spec': '''    ensures
@@ -106,7 +138,8 @@ impl ParserState {
                abs_map(map@) =~= acc.0 && name == acc.1 && abs_vals(values@) =~= acc.2 }),
 '''}},
      'proofs': [
-         {'at_start': True, 'text': '''let ghost s0 = self.abs(); let ghost body = buf_seq(&value);
+         {'at_start': True, 'text': '''proof { reveal(m_flush); reveal(m_value); reveal(m_value_legal); reveal(pair_map); }
+        let ghost s0 = self.abs(); let ghost body = buf_seq(&value);
         let ghost legal = m_value_legal(s0, tag, name, body); let ghost nm = name;'''},
          {'before': 'if tag == ValueTag::BegCollection as u8 {', 'optional': True, 'text': '''
         let ghost s1 = if nm@.len() > 0 { let f = m_flush(s0); MState { groups: f.groups, cur: f.cur, name: Some(nm), stack: f.stack } } else { s0 };
